@@ -73,7 +73,15 @@ class Engine:
     # ------------------------------------------------------------------ basics
     @cached_property
     def tables(self) -> Tables:
-        return Tables(self.repo, self.ce)
+        t = Tables(self.repo, self.ce)
+        try:
+            # the descriptors the *decoder* reads are the reference for every table rule (normally the same object as RTCM_DATA_FIELDS)
+            df = self.decoder_fields
+            if isinstance(df, dict) and df:
+                t.fields = df
+        except AnalysisError:
+            pass
+        return t
 
     def cfg(self, qual: str) -> CFG:
         if qual not in self._cfg:
@@ -274,7 +282,20 @@ class Engine:
         """Reader method called from `read` that invokes the static parser."""
         parse = f"{self.reader_cls}.parse"
         c = [q for q in self._reader_callees_of_read() if parse in self.res.callees(q)]
-        return self._one("frame assembler", c)
+        if not c:
+            # the parser is called elsewhere (e.g. by `read` itself on the assembler's result): the assembler is then the reader method called
+            # under the RTCM3 preamble test
+            pre = bytes([0xD3])
+            c = self._guarded_callee(lambda t: self._mentions_const(t, "rtcmreader", pre))
+            c = [q for q in c if q not in (self.read_primitive, self.line_primitive) and q != parse]
+        return self._one("frame assembler", sorted(set(c)))
+
+    @cached_property
+    def parse_in_assembler(self) -> bool:
+        """The frame assembler itself calls the static parser (the arrangement the (raw, parsed) rules follow)."""
+        return f"{self.reader_cls}.parse" in self.res.callees(self.frame_assembler)
+
+    NOT_FOLLOWED = "the static parser is not called from the frame assembler (its result is combined with the raw frame elsewhere): an arrangement this rule does not follow"
 
     def _guarded_callee(self, pred):
         q = f"{self.reader_cls}.read"
@@ -361,12 +382,37 @@ class Engine:
 
     @cached_property
     def single_field_routine(self) -> str:
-        c = self._methods_subscripting(self.message_cls, "RTCM_DATA_FIELDS")
+        c = []
+        for nm in sorted(self.field_table_names):
+            c += [q for q in self._methods_subscripting(self.message_cls, nm) if q not in c]
         if len(c) > 1:
             # the routine that decodes a field stores it; other readers of the field table (size calculators, describers) do not
             stores = [q for q in c if any(isinstance(n, ast.Call) and isinstance(n.func, ast.Name) and n.func.id == "setattr" for n in walk_no_nested(self.repo.func(q).node))]
             c = stores or c
         return self._one("single-field routine", c)
+
+    @cached_property
+    def field_table_names(self) -> set:
+        """Names, visible in the message module, of the table of field descriptors the decoder reads: a module-level dict of at least 100
+        entries name -> (type, size, resolution, description).  Normally the one RTCM_DATA_FIELDS; a derived / merged table counts too."""
+        mod = self.message_cls.split(".")[0]
+        env = self.ce.module_env(mod)
+        out = set()
+        for nm, v in env.items():
+            if isinstance(v, dict) and len(v) >= 100 and all(isinstance(k, str) and isinstance(x, tuple) and len(x) == 4 for k, x in list(v.items())[:50]):
+                out.add(nm)
+        return out or {"RTCM_DATA_FIELDS"}
+
+    @cached_property
+    def decoder_fields(self):
+        """The descriptor table the single-field routine actually subscripts (folded in the message module)."""
+        mod = self.message_cls.split(".")[0]
+        f = self.repo.func(self.single_field_routine)
+        env = self.ce.module_env(mod)
+        for n in walk_no_nested(f.node):
+            if isinstance(n, ast.Subscript) and isinstance(n.value, ast.Name) and n.value.id in self.field_table_names and isinstance(env.get(n.value.id), dict):
+                return env[n.value.id]
+        return self.ce.value("rtcmtypes_core", "RTCM_DATA_FIELDS")
 
     @cached_property
     def map_builder(self) -> str:
@@ -487,7 +533,7 @@ class Engine:
         if len(sfr.params) < 4:
             raise AnalysisError(f"single-field routine {sfr.qualname} has an unexpected signature")
         anam, offp = sfr.params[1], ("param", sfr.params[2])
-        fields = self.ce.value("rtcmtypes_core", "RTCM_DATA_FIELDS")
+        fields = self.decoder_fields
         cache = self.__dict__.setdefault("_spec_cache", {})
 
         def getattr_name(t):
